@@ -18,7 +18,10 @@ def run(tier, seed):
     # plus: compound states with two history states (shallow + deep, two shallow, ...)
     extra = [([(4, 6, 1), (7, 7, 1)] if tier == 'quick' else [(4, 6, 2), (7, 7, 1)],
               {'require': 'multihist', 'schemes': ('asc',)}),
-             ([(8, 8, 1)], {'require': 'hd-under-orth', 'schemes': ('asc',), 'final': False})]
+             ([(8, 8, 1)], {'require': 'hd-under-orth', 'schemes': ('asc',), 'final': False}),
+             # charts restructured with move_state (every nested composite state first lives under the root)
+             ([(4, 5, 1)], {'require': 'history', 'schemes': ('asc',), 'decls': ('moved',)}),
+             ([(6, 7, 1)], {'require': 'deep-history', 'schemes': ('desc',), 'decls': ('moved',)})]
     return schemes.run('C06', tier, seed, PLAN[tier], ['history'], {'history'}, RULE, ASSUME,
                        require='history', extra_plans=extra)
 
